@@ -237,8 +237,11 @@ namespace OP2Utility::Archive
 		clmFileWriter.Write(indexEntries);
 
 		// Copy files into the archive
+		// Note: Each stream position is at the start of the wave data. Only the data chunk is copied,
+		// since chunks may follow the data chunk in the source file.
 		for (std::size_t i = 0; i < header.packedFilesCount; ++i) {
-			clmFileWriter.Write(*filesToPackReaders[i]);
+			auto dataSlice = filesToPackReaders[i]->Slice(indexEntries[i].dataLength);
+			clmFileWriter.Write(dataSlice);
 		}
 	}
 
